@@ -44,6 +44,9 @@ func bases(quick bool) []base {
 			}
 		}
 	}
+	// the same lock history on nodes that start their consensus the way a default node does (through the
+	// reactor's SwitchToConsensus): node 1 only
+	b = append(b, base{"lock-in-round-0-via-switch", consnet.Scenario{Powers: []int64{1, 1, 1, 1}, Byz: -1, Heights: 2, ViaSwitch: true, Rules: []consnet.Rule{{Kind: "hold", Node: 1, Msg: "proposal", Round: 0}, {Kind: "hold", Node: 3, Msg: "prevote", Round: 0}}}})
 	b = append(b, base{"six-undecided-rounds", consnet.Scenario{Powers: []int64{1, 1, 1, 1}, Byz: -1, Heights: 1, Rules: many}})
 	if !quick {
 		b = append(b, base{"split-precommit-two-rounds", consnet.Scenario{Powers: []int64{1, 1, 1, 1}, Byz: 0, Heights: 2, Rules: []consnet.Rule{{Kind: "byz-split", Msg: "precommit", Round: 0, Set: []int{2}, Alt: "nil"}, {Kind: "hold", Node: 1, Msg: "prevote", Round: 0}}}})
@@ -130,6 +133,9 @@ func main() {
 				}
 				k0 = w - w/3
 			}
+			if b.name == "lock-in-round-0-via-switch" && n != 1 && n != 3 {
+				continue
+			}
 			for k := k0; k <= w; k++ {
 				delays := []int{0, 1}
 				if run.Quick() && k%4 != 0 {
@@ -154,7 +160,7 @@ func main() {
 			}
 		}
 		// two crashes: the second one at a write of the node's life after the first restart
-		if b.name == "six-undecided-rounds" {
+		if b.name == "six-undecided-rounds" || b.name == "lock-in-round-0-via-switch" {
 			continue
 		}
 		if bi == 0 || !run.Quick() {
